@@ -22,6 +22,7 @@ def main(build, run_worker, read_records):
     from plan import PLAN
     t0 = time.time()
     binp = build()
+    build(race=True)  # warms the build cache for C15's race-stress mode
     env = dict(os.environ, GOFLAGS="-mod=mod", GOPROXY="off", GOSUMDB="off", GOTOOLCHAIN="local")
     tmp = tempfile.mkdtemp(prefix="verif-setup-")
     # 1. reference BLAKE2b tree model vs Python hashlib, and vs the keys the real cafs writer produces
